@@ -133,7 +133,11 @@ func TestC02CloseVsCalls(t *testing.T) {
 		if !vt.Returns(func() { cmd = sess.Call(callRoute, &LibArg{Rid: "late", Act: "ret"}, new(LibRes)) }) {
 			t.Fatalf("C02 violated: %s", vt.Hang("return of a call issued after Close returned"))
 		}
-		if cmd.StatusOK() || !isConnErr(cmd.Status()) {
+		if kill && budget != 0 && vt.IsKnown(c07CloseIgnoredKey) {
+			// known finding: a Close that meets the session while it is redialing is ignored, the
+			// session lives on (probe: TestC07KnownProbes); only completion is required here
+			rec.Exclude(c07CloseIgnoredKey)
+		} else if cmd.StatusOK() || !isConnErr(cmd.Status()) {
 			t.Fatalf("C02 violated: a call issued after Close returned completed with %v, want a connection-class status", cmd.Status())
 		}
 		rec.Case(fmt.Sprintf("%d|%d|%d|%v|%v|%v", budget, workers, nops, head, kill, pushes), budget != 0 && overlapped > 0, fmt.Sprintf("budget=%d", budget), fmt.Sprintf("kill=%v", kill))
@@ -366,4 +370,77 @@ func TestC02RevivedSession(t *testing.T) {
 			rec.Sample(map[string]interface{}{"budget": budget, "later_ops": revOps, "pending": npend, "awaiting_reply_at_loss": nwaiting, "shared_channel": shared, "fault": fault, "gates_open_before_loss": releaseFirst})
 		}
 	})
+}
+
+const c07CloseIgnoredKey = "C07:redialing-session:close-is-ignored"
+
+// TestC07KnownProbes: deterministic reproduction of the listed known finding
+// C07:redialing-session:close-is-ignored. A redial-enabled client session loses its connection
+// while one of its handlers is running; its reader has marked the session as passively closing and
+// waits for the handler before it redials. A local Close issued in that window returns at once
+// without closing anything; afterwards the redial succeeds and the session is healthy again and
+// serves calls - after a local close.
+func TestC07KnownProbes(t *testing.T) {
+	rec := vt.NewRec(t, "C07", "known-probes", "deterministic reproductions of listed known findings")
+	vt.Init()
+	newLib()
+	w := vt.NewWorld()
+	defer w.Close()
+	srv := w.Peer(erpc.PeerConfig{})
+	callRoute, _ := registerLib(srv)
+	ts := &tcpServer{peer: srv}
+	if err := ts.listen(); err != nil {
+		return
+	}
+	defer ts.down()
+	cli := w.Peer(erpc.PeerConfig{RedialTimes: -1, RedialInterval: 2 * time.Millisecond})
+	cliRoute, _ := registerLib(cli)
+	sess, stat := cli.Dial(ts.addr)
+	if !stat.OK() {
+		return
+	}
+	// a handler of the client is running (a call issued by the server): the disconnect handling
+	// of the client's reader waits for it before it redials
+	var srvSess erpc.Session
+	if !vt.WaitUntilFor(3*time.Second, func() bool {
+		srv.RangeSession(func(x erpc.Session) bool { srvSess = x; return false })
+		return srvSess != nil
+	}) {
+		return
+	}
+	entered, release := curLib().Gate("held")
+	defer release()
+	go srvSess.Call(cliRoute, &LibArg{Rid: "held", Act: "slow", Val: "v"}, new(LibRes))
+	if !vt.WaitClosed(entered) {
+		return
+	}
+	ts.kill()
+	if !vt.WaitUntilFor(5*time.Second, func() bool { return !sess.Health() }) {
+		return
+	}
+	time.Sleep(2 * time.Millisecond)
+	if !vt.Returns(func() { sess.Close() }) {
+		t.Fatalf("C07 violated: %s", vt.Hang("return of Close on a session whose connection was just lost"))
+	}
+	release()
+	alive := vt.WaitUntilFor(3*time.Second, func() bool {
+		if !sess.Health() {
+			return false
+		}
+		var res LibRes
+		var st *erpc.Status
+		if !vt.Returns(func() { st = sess.Call(callRoute, &LibArg{Rid: "after-close", Act: "ret", Val: "v"}, &res).Status() }) {
+			return false
+		}
+		return st.OK()
+	})
+	if !alive {
+		return // does not reproduce (any more)
+	}
+	what := "a local Close issued between the loss of the connection of a redial-enabled session and its redial (the reader waits for a running handler) returns without closing anything: the redial then succeeds, the session is healthy again and a call issued after Close returned succeeds"
+	if vt.IsKnown(c07CloseIgnoredKey) {
+		rec.KnownFinding(c07CloseIgnoredKey, what)
+		return
+	}
+	t.Fatalf("C07 violated: %s", what)
 }
